@@ -125,6 +125,10 @@ class Slice(RowFilter):
                 new_stop = self.stop
             else:
                 new_stop = min(self.stop, next.stop + self.start)
+        if new_stop is not None and new_start > new_stop:
+            # The second slice starts beyond the end of the first; the
+            # combination is empty.
+            new_start = new_stop
         return Slice(new_start, new_stop)
 
     def applied_min_rows(self, target: Relation) -> int:
